@@ -246,9 +246,9 @@ CLAIMS = {
         'comma placement, # and ### comments, padding, indentation, blank lines) and the annotated sample schemas under context-free '
         'transformations; all layouts must give the same verdict, AST dump (also equal to the model and to the generating model), example, '
         'used types and OpenAPI JSON.',
-   note='Trusted: Coq kernel; model tied by correspondence; printer; harness. Partial: the lexer lemmas are local (one layout change each), '
-        'their composition over a whole text is not proved; quoted vs bare rule names and block annotations with rule objects are covered by '
-        'the correspondence only. No axioms.',
+   note='Trusted: Coq kernel; model tied by correspondence; printer; harness. The composition is proved too: every layout (SLay) of a token sequence is lexed back to it, so every '
+        'layout of every writing of a tree gives that tree (C14_lexer_layout, C14_layout_independent). Partial: quoted vs bare rule names '
+        'and block annotations carrying a rule object are inside the annotation reader (premise parse_ann) and covered by the correspondence. No axioms.',
    technique='Coq lexer lemmas per layout dimension + token-level parser theorem + pairwise comparison of all observables across layouts',
    ref='section 9, C14'),
  'C08': dict(
